@@ -21,6 +21,12 @@ META = {
 
 H = os.path.join(V.VERIF, "harness", "C01")
 FIELDS = {"Z": 0, "D": 1, "C": 2, "F7": 7, "F13": 13}
+FIELDS_THOROUGH = {"L": 3, "S": 4}      # long, float (holding small integers): further members of the field-type family, thorough tier only
+ALLFIELDS = dict(FIELDS, **FIELDS_THOROUGH)
+
+
+def fields_of(ctx):
+    return list(FIELDS) + ([] if ctx.quick else list(FIELDS_THOROUGH))
 KERNELS = ["mv", "mtv", "umv", "umtv", "umhv", "mmv", "mmtv", "mmhv", "usmv", "usmtv", "usmhv"]
 NK = {"mv", "umv", "mmv", "usmv"}
 MAXN = 4
@@ -92,7 +98,7 @@ def tu_of(f, op, rep, rep2, r, c, p):
         return r if op == "leftmultiply" else c
     if op.startswith("xr_") or op.startswith("xw_"):
         return 1
-    static = any(x in ("FM", "DG", "FV", "SV", "SW", "TF", "TG", "SC") for x in (rep, rep2))
+    static = any(x in ("FM", "DG", "FV", "SV", "SW", "TF", "TG", "SC", "FD", "DF") for x in (rep, rep2))
     if static:
         return r
     return (r - 1) % MAXN + 1
@@ -109,7 +115,7 @@ def gen(ctx):
     dyn_shapes = [(1, 1), (1, 3), (2, 2), (2, 5), (3, 1), (3, 4), (4, 2), (5, 3), (6, 6), (5, 1), (1, 6), (4, 4)]
     if not quick:
         dyn_shapes += [(r, c) for r in range(1, 8) for c in range(1, 8) if (r, c) not in dyn_shapes and (r + c) % 3 == 0]
-    for f in FIELDS:
+    for f in fields_of(ctx):
         rng = ctx.rng("gen", f)
         g = Gen(rng, f)
 
@@ -249,7 +255,7 @@ def gen_extra(ctx):
     draws = 1 if quick else 4
     cases = []
     S = range(1, MAXN + 1)
-    for f in FIELDS:
+    for f in fields_of(ctx):
         rng = ctx.rng("genx", f)
         g = Gen(rng, f)
         src = Gen(rng, "Z")           # entries of the source field of cross-field operations (real / integer)
@@ -366,6 +372,47 @@ def gen_extra(ctx):
                         emit("xnorm", "DM", "DM", r, c, 0, [g.scalar()] + M(r, c, 97))
                     if f in ("D", "C"):
                         emit("xfield", "DM", "DM", r, c, 0, [g.scalar()] + MS(r, c, 97))
+            # ---- dimension audit (mutants/C01/API_COVERAGE.md "Dimension audit")
+            # aliasing: the scalar argument is an entry of the receiver; the matrix itself as the argument of += -= axpy ==
+            for n in list(S) + [7]:
+                for i0 in sorted(set([0, n - 1, rng.randrange(n)])):
+                    dv = g.divisor()
+                    e = g.vec(n, 101); e[i0] = "1:0" if f == "C" else "1"
+                    x = [g.times(t, dv) for t in e]
+                    if n <= MAXN:
+                        emit("xvelem", "FV", "FV", n, 0, i0, [g.scalar()] + g.vec(n, 103) + x)
+                        if n >= 2:
+                            emit("xdelem", "DG", "DG", n, n, i0, [g.scalar()] + x)
+                    emit("xvelem", "DV", "DV", n, 0, i0, [g.scalar()] + g.vec(n, 103) + x)
+            for (r, c) in [(1, 1), (2, 2), (2, 3), (3, 2), (4, 4), (1, 4), (3, 1)]:
+                p0 = rng.randrange(r * c)
+                dv = g.divisor()
+                e = M(r, c, 97); e[p0] = "1:0" if f == "C" else "1"
+                a = [g.times(t, dv) for t in e]
+                for rep in ("FM", "DM"):
+                    emit("xmelem", rep, rep, r, c, p0, [g.scalar()] + M(r, c, 103) + a)
+                    emit("xkelemN", rep, rep, r, c, rng.randrange(r), [g.scalar()] + M(r, c, 97) + g.vec(c, 101) + g.vec(r, 103))
+                    emit("xkelemT", rep, rep, r, c, rng.randrange(c), [g.scalar()] + M(r, c, 97) + g.vec(r, 101) + g.vec(c, 103))
+                    emit("xmself", rep, rep, r, c, 0, [g.scalar()] + M(r, c, 97))
+                if r == c and r >= 2:
+                    emit("xkelemN", "DG", "DG", r, r, rng.randrange(r), [g.scalar()] + g.vec(r, 97) + g.vec(r, 101) + g.vec(r, 103))
+                    emit("xkelemT", "DG", "DG", r, r, rng.randrange(r), [g.scalar()] + g.vec(r, 97) + g.vec(r, 101) + g.vec(r, 103))
+                    emit("xmself", "DG", "DG", r, r, 0, [g.scalar()] + g.vec(r, 97))
+            # roles: x and y of different vector classes in every kernel
+            for op in KERNELS:
+                for (r, c) in [(1, 1), (2, 3), (3, 2), (4, 4)]:
+                    xs, ys = (c, r) if op in NK else (r, c)
+                    for rep2 in ("FD", "DF"):
+                        emit(op, "FM", rep2, r, c, 0, [g.scalar()] + M(r, c, 97) + g.vec(xs, 101) + g.vec(ys, 103))
+                        emit(op, "DM", rep2, r, c, 0, [g.scalar()] + M(r, c, 97) + g.vec(xs, 101) + g.vec(ys, 103))
+                        if r == c:
+                            emit(op, "DG", rep2, r, r, 0, [g.scalar()] + g.vec(r, 97) + g.vec(xs, 101) + g.vec(ys, 103))
+            # histories (re-use after resize / move / refill, default arguments), allocator family
+            for n in (1, 2, 5):
+                emit("xhist", "DV", "DV", n, 0, 0, [g.scalar()] + g.vec(n, 101) + g.vec(n, 103))
+                emit("xalloc", "DV", "DV", n, 0, 0, [g.scalar()] + g.vec(n, 101))
+            for (r, c) in [(1, 1), (2, 3), (3, 2), (4, 1)]:
+                emit("xhist", "DM", "DM", r, c, 0, [g.scalar()] + M(r, c, 97) + g.vec(c, 101) + g.vec(r, 103))
             # every in-place / mutating operation with every 1x1 / size-1 representation as the RECEIVER and as the argument
             # (owning FM/DM/FV/DV, views SV/SW, SC = view of a const scalar, SS = a second view of the receiver's own scalar)
             for rep in ("SV", "FM", "DM"):
@@ -449,7 +496,7 @@ def write_tu(ctx, fname, fid, r):
 def build_impls(ctx, keys, san=False):
     jobs, outs = [], {}
     for (f, r) in sorted(keys):
-        src = write_tu(ctx, f, FIELDS[f], r)
+        src = write_tu(ctx, f, ALLFIELDS[f], r)
         out = ctx.path("impl%s_%s_%d" % ("_san" if san else "", f, r))
         outs[(f, r)] = out
         jobs.append(dict(srcs=[src], out=out, flags=["-I" + H], san=san, opt="-O0" if (ctx.quick and not san) else "-O1"))
